@@ -29,6 +29,7 @@ type counters struct {
 	SpellingVariants  int64 `json:"calls_re_executed_in_another_spelling"`
 	IsolationChecks   int64 `json:"other_db_isolation_checks"`
 	ExcusedAfterError int64 `json:"order_anomalies_excused_because_an_earlier_call_returned_an_error"`
+	ReentrantRuns     int64 `json:"executions_with_a_registration_issued_from_inside_a_running_callback"`
 }
 
 func (c *counters) add(o *counters) {
@@ -44,6 +45,7 @@ func (c *counters) add(o *counters) {
 	c.RemoveExisting += o.RemoveExisting
 	c.ReRegistered += o.ReRegistered
 	c.Executions += o.Executions
+	c.ReentrantRuns += o.ReentrantRuns
 	c.StubsFired += o.StubsFired
 	c.FreshChecks += o.FreshChecks
 	c.CyclicInputs += o.CyclicInputs
